@@ -10,11 +10,21 @@ Open Scope list_scope.
 
 Inductive pcall2 :=
 | P1 (c : pcall)
-| PFilesBindings (files : list string) (bindings : gfile) (finalize : bool) (sk : skip_unknown).
+| PFilesBindings (files : list string) (bindings : gfile) (finalize : bool) (sk : skip_unknown)
+| PBindApi (scope sel arg : string) (v : out).     (* gin.bind_parameter from Python: no statement, hence no location *)
+
+(* bind_parameter (1087-1094) records the location even when there is none, so that a value set from Python is not
+   attributed to the statement that set the previous value *)
+Definition no_loc : loc := ("<none>", 0).
 
 Definition run_call2 (env : fenv) (s : tstate) (c : pcall2) : tstate * out :=
   match c with
   | P1 c => run_call env s c
+  | PBindApi scope sel arg v =>
+      match bind s scope sel arg v no_loc with
+      | SOk s' => (s', OT "Ok" [])
+      | SErr e => (s, serr_out e)
+      end
   | PFilesBindings files b fin sk =>
       let '(s1, r) :=
         fold_left (fun acc f =>
